@@ -3,14 +3,12 @@
     [squash_self_loops], [squash_concat_attrs], [squash_prefix], [squash_edge_attr] are GENERATED from
     resolve.py on every run (Gen/HydroGen.v).
 
-    The full statement "for every well-formed molecule graph and every set of `!` pairs the loop
-    returns, with one node fewer per merged pair, …" is NOT provable for the current code: it is
-    refuted below for three defect classes (witnesses replayed on the implementation by the check,
-    see known_findings.json).  What is proved ([C10_partial_*]) is the statement for every input
-    whose bookkeeping is [squash_safe]: the `!` pairs never ask to merge an atom with itself (class
-    redundant-squash-cycle) and never look up an atom that was already merged away (class
-    stale-squashed-entry).  The check evaluates on every case that an input outside these two
-    classes is squash_safe (SquashCheck.class_cover_ok). *)
+    After /repo commit 03eb080 (squash_atoms follows `squashed` to the atom that still exists and skips
+    pairs that are already merged) the bookkeeping theorems hold for EVERY well-formed molecule graph on
+    which the loop returns: the former hypothesis [squash_safe] is gone (the root-following lookups are
+    proved total, [C10_sq_root_total]); the former refutations for the classes redundant-squash-cycle
+    and stale-squashed-entry are now positive Examples.  One defect class remains, refuted below:
+    stale-hcount-aromatic (a merged aromatic atom keeps the hydrogen count of one copy). *)
 From Coq Require Import String.
 From Coq Require Import List Ascii ZArith Bool.
 From CGV Require Import Base.PyBase Base.PyVal Base.NxGraph Gen.HydroGen Hydro.Hydrogens Hydro.Squash
@@ -31,7 +29,7 @@ Theorem C10_contracted_spec : forall g u v au av, wf_graph g -> u <> v ->
 Proof. exact contracted_spec. Qed.
 
 (** the kept atom keeps the bonds of both; nothing else changes *)
-Theorem C10_partial_squash_neighbours : forall g u v au av h, wf_graph g -> u <> v ->
+Theorem C10_squash_neighbours : forall g u v au av h, wf_graph g -> u <> v ->
   nattrs g u = Some au -> nattrs g v = Some av -> contracted squash_self_loops g u v = Ok h ->
   wf_graph h /\ has_node h v = false /\
   (forall x, x <> u -> x <> v -> has_edge h u x = has_edge g u x || has_edge g v x) /\
@@ -41,11 +39,12 @@ Theorem C10_partial_squash_neighbours : forall g u v au av h, wf_graph g -> u <>
 Proof. exact squash_neighbours. Qed.
 
 (** the merged atom belongs to both coarse nodes; every other atom keeps its attributes *)
-Theorem C10_partial_squash_membership : forall g u v au av fu fv mu mv, wf_graph g -> u <> v ->
+Theorem C10_squash_membership : forall g u v au av fu fv mu mv, wf_graph g -> u <> v ->
   nattrs g u = Some au -> nattrs g v = Some av ->
   aget (S "fragid") au = Some (VList fu) -> aget (S "fragid") av = Some (VList fv) ->
   aget (S "mapping") au = Some (VList mu) -> aget (S "mapping") av = Some (VList mv) ->
-  forall sq a b bond, starts_squash bond = Ok true -> sq_get sq a = u -> sq_get sq b = v ->
+  forall sq a b bond, starts_squash bond = Ok true ->
+  sq_root (sq_fuel sq) sq a = Ok u -> sq_root (sq_fuel sq) sq b = Ok v ->
   exists g2, squash_step (g, sq) (a, b, bond) = Ok (g2, sq_set v u sq) /\
     node_keys g2 = filter (fun k => negb (Z.eqb k v)) (node_keys g) /\
     (forall y x, has_edge g2 y x = contracted_edge g u v y x) /\
@@ -55,41 +54,55 @@ Theorem C10_partial_squash_membership : forall g u v au av fu fv mu mv, wf_graph
     (forall y, y <> u -> y <> v -> nattrs g2 y = nattrs g y).
 Proof. exact squash_membership. Qed.
 
-(** exactly one node fewer per `!` pair *)
-Theorem C10_partial_squash_count : forall g g', wf_graph g ->
-  squash_safe (node_keys g) [] [] (bang_items g) = true -> squash_atoms g = Ok g' ->
-  wf_graph g' /\ (length g' + length (bang_items g) = length g)%nat.
+(** the lookups `while node in squashed: node = squashed[node]` terminate and compute the one-pass root
+    on every dict the loop can build ([fwd]: chains only run forward) *)
+Theorem C10_sq_root_total : forall sq, fwd sq -> forall f x, (length sq < f)%nat ->
+  sq_root f sq x = Ok (sq_pass sq x).
+Proof. exact sq_root_pass. Qed.
+
+(** node count, for every well-formed graph: one node fewer per merge; a pair whose ends already are one
+    atom is skipped ([squash_plan] lists the merges) *)
+Theorem C10_squash_count : forall g g', wf_graph g -> squash_atoms g = Ok g' ->
+  wf_graph g' /\ (length g' + length (squash_plan [] (bang_items g)) = length g)%nat.
 Proof. exact squash_count. Qed.
+(** exactly one node fewer per `!` pair when no pair is redundant *)
+Theorem C10_squash_count_per_pair : forall g g', wf_graph g -> squash_atoms g = Ok g' ->
+  length (squash_plan [] (bang_items g)) = length (bang_items g) ->
+  (length g' + length (bang_items g) = length g)%nat.
+Proof. exact squash_count_per_pair. Qed.
 
 (** non-vacuity: a chain of three fragments sharing one atom, next to an ordinary `$` bond *)
 Example C10_nonvacuous :
-  wf_graph g_chain /\ squash_safe (node_keys g_chain) [] [] (bang_items g_chain) = true /\
-  length (bang_items g_chain) = 2%nat /\
+  wf_graph g_chain /\ length (bang_items g_chain) = 2%nat /\ length (squash_plan [] (bang_items g_chain)) = 2%nat /\
   exists g', squash_atoms g_chain = Ok g' /\ length g' = 4%nat /\
              node_get g' 1 (S "fragid") = Some (VList [VInt 0; VInt 1; VInt 2]) /\
              neighbors g' 1 = [0; 4].
 Proof. exact squash_count_nonvacuous. Qed.
 
-(** REFUTED on the current code, one witness per listed defect class *)
-Theorem C10_refuted_redundant_squash_cycle :
-  wf_graph g_triangle /\ squash_atoms g_triangle = Err EKey /\
-  squash_safe (node_keys g_triangle) [] [] (bang_items g_triangle) = false.
-Proof. exact refuted_redundant_cycle. Qed.
-Theorem C10_refuted_stale_squashed_entry :
-  wf_graph g_stale /\ squash_atoms g_stale = Err EKey /\
-  squash_safe (node_keys g_stale) [] [] (bang_items g_stale) = false.
-Proof. exact refuted_stale_entry. Qed.
+(** the witnesses of the two repaired classes now resolve *)
+Example C10_fixed_redundant_squash_cycle :
+  wf_graph g_triangle /\ length (bang_items g_triangle) = 3%nat /\ squash_plan [] (bang_items g_triangle) = [(0, 1); (0, 2)] /\
+  exists g', squash_atoms g_triangle = Ok g' /\ length g' = 1%nat /\
+             node_get g' 0 (S "fragid") = Some (VList [VInt 0; VInt 1; VInt 2]) /\ neighbors g' 0 = [].
+Proof. exact triangle_resolves. Qed.
+Example C10_fixed_stale_squashed_entry :
+  wf_graph g_stale /\ squash_plan [] (bang_items g_stale) = [(0, 2); (1, 0); (1, 3)] /\
+  exists g', squash_atoms g_stale = Ok g' /\ length g' = 2%nat /\
+             node_get g' 1 (S "fragid") = Some (VList [VInt 1; VInt 0; VInt 2; VInt 3]) /\ neighbors g' 1 = [4].
+Proof. exact stale_entry_resolves. Qed.
+
+(** REFUTED on the current code (known finding stale-hcount-aromatic) *)
 Theorem C10_refuted_stale_hcount_aromatic :
-  wf_graph g_toluene /\ squash_safe (node_keys g_toluene) [] [] (bang_items g_toluene) = true /\
+  wf_graph g_toluene /\
   exists g', squash_atoms g_toluene = Ok g' /\
              SquashCheck.stale_hcount_aromatic (observe g') = true /\
              node_get g' 0 (S "hcount") = Some (VFlt (S "1.5")) /\ bonds_half g' 0 = Ok 8.
 Proof. exact refuted_stale_hcount. Qed.
 
 Print Assumptions C10_contracted_spec.
-Print Assumptions C10_partial_squash_neighbours.
-Print Assumptions C10_partial_squash_membership.
-Print Assumptions C10_partial_squash_count.
-Print Assumptions C10_refuted_redundant_squash_cycle.
-Print Assumptions C10_refuted_stale_squashed_entry.
+Print Assumptions C10_squash_neighbours.
+Print Assumptions C10_squash_membership.
+Print Assumptions C10_sq_root_total.
+Print Assumptions C10_squash_count.
+Print Assumptions C10_squash_count_per_pair.
 Print Assumptions C10_refuted_stale_hcount_aromatic.
